@@ -82,6 +82,10 @@ CHECKS["C09"] = dict(
     text="ota_serves_advertised: for every image the advertised block count B and CRC C are such that blocks 0..B-1 (any order, "
          "repetition, node) concatenate to image + 1..128 bytes 0xFF, length 16*B, multiple of 128, CRC-16/MODBUS = C, each "
          "response echoes type/version/index; hex_load: hexLoad (hexWrite base recLen img) = img up to 2^32; gateway-level "
+         "update_from_file (Properties/C09File.lean): Gateway.update_fw with the Intel HEX file of an image is make_update "
+         "with exactly that image, bad_file_noop / dataless_file: an unreadable, rejected or data-less file changes "
+         "nothing — every update in the generated histories reaches the model as the text of the file the real call "
+         "reads (good, damaged, truncated, reordered, missing); "
          "theorems show the handlers' replies are these pure functions independent of other nodes.",
     note="Trusted: Lean kernel; Model/Ota.lean, Model/IntelHex.lean and the OTA handlers of Model/Gateway.lean as models of "
          "ota.py, crcmod 'modbus', struct/binascii and intelhex 2.3 (sampled by the correspondence, not proved).",
